@@ -1,7 +1,8 @@
 #!/usr/bin/env python3
 """Behaviour-preserving changes (produced by independent sub-agents) must not be flagged by any check.
 
-  tools/refaceval.py <N> [rK ...] [--src DIR] [--prefix P]      reads DIR/<N>/rK.diff (default /tmp/refac/out)
+  tools/refaceval.py <N> [rK ...] [--src DIR] [--prefix P] [--only C01,C02] [--notests]
+                                                               reads DIR/<N>/rK.diff (default /tmp/refac/out)
 
 Applies each change in a scratch worktree of /repo, confirms it compiles (also with -tags verif) and passes the
 existing tests, then runs EVERY check's quick tier against it (VERIF_REPO). Stores patch + outcome under
@@ -33,6 +34,11 @@ def main():
         i = args.index("--src"); root = args[i + 1]; del args[i:i + 2]
     if "--prefix" in args:          # stored as /verif/refactorings/<prefix><N>-rK
         i = args.index("--prefix"); prefix = args[i + 1]; del args[i:i + 2]
+    only, notests = None, False
+    if "--only" in args:            # comma list of checks to run (default: all 17)
+        i = args.index("--only"); only = args[i + 1].split(","); del args[i:i + 2]
+    if "--notests" in args:         # property-preserving changes may move what /repo's unit tests pin: run the checks anyway
+        args.remove("--notests"); notests = True
     sys.argv[1:] = args
     n = sys.argv[1]
     src = "%s/%s" % (root, n)
@@ -58,9 +64,9 @@ def main():
             rc, out = sh(["go", "test", "-vet=off", "-count=1", "./..."], cwd=wt)
             res["tests_pass"] = rc == 0
             res["checks"] = {}
-            if res["applies"] and res["tests_pass"]:
+            if res["applies"] and res["compiles_with_tag"] and (res["tests_pass"] or notests):
                 env = dict(ENV, VERIF_REPO=wt, VERIF_EVIDENCE_DIR=evd, VERIF_REPLAY_DIR=evd)
-                for c in ALL:
+                for c in (only or ALL):
                     rc, out = sh(["./check", c, "quick"], cwd=os.environ.get("VERIF_HOME", "/verif"), env=env, timeout=3600)
                     lines = [l[:500] for l in out.splitlines() if l.startswith(("VIOLATION", "UNDECIDED", "MECHANISM-DRIFT", "violated:"))]
                     res["checks"][c] = {"rc": rc, "lines": lines[:6]}
